@@ -150,7 +150,38 @@ struct Rng {
 
 static const std::vector<std::string> kSilence = {"", "", "engine", "plugins", "engine,plugins", " plugins , engine "};
 
-static RsS genRuleset(Rng& r, const std::string& name, const std::string& profile) {
+// knobs of a scenario family; each property's check uses the family that exercises it
+struct Profile {
+  bool cg = false, drop = false;
+  std::vector<int> rsDelays{0, 1, 2, 3};   int rsDelayPct = 75;   // else default 15 s
+  std::vector<int> ownDelays{0, 1, 2, 3};  int ownDelayPct = 35;
+  std::vector<int> dts{0, 1, 999, 1000, 1001, 2000, 2999, 3000, 5000, 15000};
+  std::vector<int> actStop{20, 35, 60}, actAsync{10, 30, 50}, detStop{10, 25, 50};
+  int detAsyncPct = 30;
+  std::vector<int> advPct{0, 0, 10, 30};
+  int minTicks = 3, maxTicks = 10;
+};
+static Profile profileOf(const std::string& n) {
+  Profile p;
+  if (n == "c05") {
+    p.rsDelays = {1, 2, 3}; p.rsDelayPct = 90; p.ownDelayPct = 55;
+    p.dts = {0, 1, 999, 1000, 1001, 1999, 2000, 2001, 2999, 3000, 3001};
+    p.actStop = {40, 60}; p.actAsync = {20, 35}; p.detStop = {10, 20}; p.maxTicks = 12;
+  } else if (n == "c06") {
+    p.rsDelays = {0}; p.rsDelayPct = 100; p.ownDelayPct = 0;
+    p.actStop = {10, 20}; p.actAsync = {45, 60}; p.detStop = {25, 50}; p.maxTicks = 12;
+  } else if (n == "c11" || n == "cg") {
+    p.cg = true; p.rsDelays = {0, 1, 2};
+  } else if (n == "c13" || n == "dropin") {
+    p.drop = true; p.rsDelays = {0}; p.rsDelayPct = 100; p.ownDelayPct = 0;
+    p.actAsync = {0, 0, 15}; p.detStop = {0, 15};
+  } else if (n == "mixed") {
+    p.cg = true; p.drop = true;
+  }
+  return p;
+}
+
+static RsS genRuleset(Rng& r, const std::string& name, const Profile& pf) {
   RsS rs;
   rs.name = name;
   int ng = 1 + r.upto(3);
@@ -164,13 +195,13 @@ static RsS genRuleset(Rng& r, const std::string& name, const std::string& profil
   int na = 1 + r.upto(3);
   for (int a = 0; a < na; a++) {
     PlugS p{name + ".a" + std::to_string(a)};
-    if (r.chance(35)) p.delay = r.pick(std::vector<int>{0, 1, 2, 3});
+    if (r.chance(pf.ownDelayPct)) p.delay = r.pick(pf.ownDelays);
     rs.acts.push_back(p);
   }
-  if (r.chance(75)) rs.delay = r.pick(std::vector<int>{0, 1, 2, 3});
+  if (r.chance(pf.rsDelayPct)) rs.delay = r.pick(pf.rsDelays);
   if (r.chance(50)) rs.timeout = r.pick(std::vector<int>{0, 1, 2});
   rs.silence = r.pick(kSilence);
-  if (profile == "dropin" || profile == "mixed") {
+  if (pf.drop) {
     rs.dod = r.chance(40); rs.pd = r.chance(65); rs.pa = r.chance(65);
   }
   return rs;
@@ -202,6 +233,7 @@ int main(int argc, char** argv) {
   uint64_t seed = strtoull(argv[2], nullptr, 10);
   int nScn = atoi(argv[3]);
   std::string profileArg = argv[4];
+  int firstScn = argc > 5 ? atoi(argv[5]) : 0;
   installAbortHandlers();
   std::ostringstream sink; // swallow debug logs
   Oomd::Log::get(-1, sink, true);
@@ -209,10 +241,10 @@ int main(int argc, char** argv) {
   vclockEnable(true);
   ip().active = true;
 
-  for (int scn = 0; scn < nScn; scn++) {
+  for (int scn = firstScn; scn < firstScn + nScn; scn++) {
     Rng r(seed * 1000003ULL + scn);
     std::string profile = profileArg;
-    if (profile == "mixed") profile = std::vector<std::string>{"plain", "dropin", "cg", "mixed"}[r.upto(4)];
+    Profile pf = profileOf(profile);
     SimFs fs;
     ip().base = fs.base();
     resetScenario();
@@ -222,9 +254,9 @@ int main(int argc, char** argv) {
     // ---------------- configuration
     std::vector<RsS> cfg;
     int nrs = 1 + r.upto(3);
-    for (int i = 0; i < nrs; i++) cfg.push_back(genRuleset(r, "r" + std::to_string(i), profile));
+    for (int i = 0; i < nrs; i++) cfg.push_back(genRuleset(r, "r" + std::to_string(i), pf));
     std::vector<std::string> cgNames = {"a/x", "a/y", "a/z", "b", "ab/x"};
-    bool useCg = profile == "cg" || profile == "mixed";
+    bool useCg = pf.cg;
     if (useCg) {
       for (auto& rs : cfg) {
         if (r.chance(70)) {
@@ -235,7 +267,7 @@ int main(int argc, char** argv) {
       }
     }
     std::vector<HookS> hooks;
-    bool useDrop = profile == "dropin" || profile == "mixed";
+    bool useDrop = pf.drop;
     if (useDrop) {
       int nh = r.upto(3);
       for (int i = 0; i < nh; i++)
@@ -277,11 +309,11 @@ int main(int argc, char** argv) {
     Adaptor adaptor(fs.root(), root, *engine);
 
     // ---------------- script
-    int detStop = r.pick(std::vector<int>{10, 25, 50});
-    int detAsync = r.chance(30) ? 10 : 0;
-    int actStop = r.pick(std::vector<int>{20, 35, 60});
-    int actAsync = r.pick(std::vector<int>{10, 30, 50});
-    int advPct = r.pick(std::vector<int>{0, 0, 10, 30});
+    int detStop = r.pick(pf.detStop);
+    int detAsync = r.chance(pf.detAsyncPct) ? 10 : 0;
+    int actStop = r.pick(pf.actStop);
+    int actAsync = r.pick(pf.actAsync);
+    int advPct = r.pick(pf.advPct);
     setDecider([&](const CallInfo& c) {
       Decision d;
       int x = r.upto(100);
@@ -292,7 +324,7 @@ int main(int argc, char** argv) {
     });
 
     std::vector<std::string> tags = {"t1", "t2", "t3"};
-    int nTicks = 3 + r.upto(8);
+    int nTicks = pf.minTicks + r.upto(pf.maxTicks - pf.minTicks + 1);
     for (int k = 0; k < nTicks; k++) {
       // ----- environment between ticks
       if (useCg && r.chance(60)) {
@@ -354,7 +386,7 @@ int main(int argc, char** argv) {
         }
       }
       // ----- the tick
-      int dt = r.pick(std::vector<int>{0, 1, 999, 1000, 1001, 2000, 2999, 3000, 5000, 15000});
+      int dt = r.pick(pf.dts);
       if (k > 0) vclockAdvance(dt);
       evEmit(J().str("e", "TickBegin").num("t", vclockNowMs()));
       ctx.refresh();
